@@ -780,6 +780,95 @@ enum Workload {
     Doc(Arc<DocCase>),
 }
 
+/// Family K: the built `wac` binary as a real child process (fresh address space, ASLR on)
+/// under the LD_PRELOAD getrandom shim, once per hash seed, on a freshly materialised tree.
+fn run_cli_family(run: &mut Run) {
+    use crate::props::c19::gen_scenario;
+    let thorough = run.tier == crate::engine::Tier::Thorough;
+    let t = &mut *run.tape;
+    let sc = gen_scenario(t, if thorough { 16 } else { 10 });
+    let nproc = if thorough { 3 } else { 2 };
+    let seeds: Vec<u64> = (0..nproc).map(|_| t.draw(u64::MAX)).collect();
+    let args = sc.cmd.args();
+    t.event(format!("workload K: {} [{}]", sc.cmd.name(), sc.label));
+    t.event(format!("argv: wac {}", args.join(" ")));
+    for (k, p) in &sc.faults {
+        t.event(format!("disk fault {k} on {p}"));
+    }
+    if let Some(src) = sc.tree.files.get("src.wac") {
+        for l in String::from_utf8_lossy(src).lines().take(60) {
+            t.event(format!("  | {l}"));
+        }
+    }
+    run.nontrivial = true;
+    run.cover("families", "K");
+    run.cover("cli_subcommands", sc.cmd.name());
+    if let crate::props::c19::Cmd::Plug(p) = &sc.cmd {
+        let stems: std::collections::BTreeSet<String> = p
+            .plugs
+            .iter()
+            .map(|p| std::path::Path::new(p).file_stem().unwrap().to_string_lossy().to_string())
+            .collect();
+        if stems.len() >= 2 {
+            run.probe(">=2_plug_names");
+        }
+    }
+    let root = run.scratch.join(format!("k{}", run.index));
+    let mut reference: Option<(u64, Vec<(String, String)>)> = None;
+    for h in seeds {
+        let _ = std::fs::remove_dir_all(&root);
+        if let Err(e) = sc.tree.materialise(&root) {
+            run.harness(format!("cannot materialise scratch tree: {e}"));
+            return;
+        }
+        let child = match crate::cli::run_wac(&root, &args, h, 30) {
+            Ok(c) => c,
+            Err(e) => {
+                run.harness(format!("cannot run the wac binary: {e}"));
+                return;
+            }
+        };
+        run.add("child_processes", 1);
+        let outfile = sc
+            .cmd
+            .output()
+            .map(|o| match std::fs::read(root.join(o)) {
+                Ok(b) => format!("{}:{}", b.len(), sha256_hex(&b)),
+                Err(_) => "absent".to_string(),
+            })
+            .unwrap_or_else(|| "n/a".into());
+        let obs = vec![
+            ("cli-exit".to_string(), format!("{:?}/{:?}/{}", child.code, child.signal, child.timed_out)),
+            ("cli-stdout".to_string(), format!("{}:{}", child.stdout.len(), sha256_hex(&child.stdout))),
+            ("cli-stderr".to_string(), String::from_utf8_lossy(&child.stderr).to_string()),
+            ("cli-outfile".to_string(), outfile),
+        ];
+        match &reference {
+            None => reference = Some((h, obs)),
+            Some((h0, r)) => {
+                if let Some(diff) = first_difference(r, &obs) {
+                    run.violate(
+                        format!("differs:K:{}", diff.0),
+                        format!(
+                            "`wac {}`: {} differs between hash seed {h0:#x} and hash seed {h:#x} (two fresh processes, identical inputs): `{}` vs `{}`",
+                            args.join(" "),
+                            diff.0,
+                            clip(&diff.1),
+                            clip(&diff.2)
+                        ),
+                    );
+                    let _ = std::fs::remove_dir_all(&root);
+                    return;
+                }
+            }
+        }
+    }
+    if let Some((_, r)) = &reference {
+        run.tape.event(format!("cli observations: exit {} stdout {} outfile {}", r[0].1, r[1].1, r[3].1));
+    }
+    let _ = std::fs::remove_dir_all(&root);
+}
+
 fn observe(w: &Workload) -> Obs {
     match w {
         Workload::Graph(s) => observe_graph(s),
@@ -801,8 +890,12 @@ pub fn run(run: &mut Run) {
     // force the lazily built corpora on the worker's main thread (fixed hash seed)
     let _ = library();
     let thorough = run.tier == crate::engine::Tier::Thorough;
+    let family = run.tape.draw(12);
+    if family >= 10 {
+        run_cli_family(run);
+        return;
+    }
     let t = &mut *run.tape;
-    let family = t.draw(10);
     let (workload, fam_name, probes): (Workload, &str, Vec<&'static str>) = match family {
         0..=4 => {
             let (s, p) = gen_graph_script(t, if thorough { 40 } else { 30 });
